@@ -104,6 +104,10 @@ def s1(cx):
     for tgt in TARGETS:
         out, exc = _specialise(m, SAMPLE, tgt)
         if exc is not None:
+            if exc.etype in ("AttributeError", "NameError", "TypeError", "KeyError") and tgt in ("cpu_serial", "cpu_openmp", "opencl", "cuda"):
+                # most likely a construct the checker's interpreter does not model (a specialiser that raised these on
+                # every call would fail the existing suite at once): not a verdict
+                raise AnalysisError(f"[S1] specialize_source cannot be evaluated for {tgt}: {exc.etype}: {exc.msg}")
             cx.bad(f, construct=f"specialize_source(sample, {tgt})", detail=f"raises {exc.etype}: {exc.msg}", sub="eval")
             continue
         outs[tgt] = out
@@ -168,31 +172,23 @@ def s1(cx):
         # ---- S8 qualifier substitution
         for ph, per in QUAL_ORACLE.items():
             cx.check(ph not in txt, f, construct=f"[{tgt}] `{ph}` substituted everywhere", detail="no placeholder is left", bad_detail=f"placeholder {ph} survives on {tgt}", sub="S8")
-    # S8: substitution only introduces qualifier tokens: compare sample vs output with placeholders mapped
-    ph_calls = [c for c in ast.walk(f) if isinstance(c, ast.Call) and isinstance(c.func, ast.Attribute) and c.func.attr == "replace" and len(c.args) == 2 and isinstance(c.args[0], ast.Constant) and str(c.args[0].value).startswith("/*")]
-    keys = sorted(c.args[0].value for c in ph_calls)
-    cx.check(keys == sorted(QUAL_ORACLE), f, construct=f"substitution keys {keys}", detail="exactly the four placeholders the generator emits are replaced", bad_detail=f"substitution keys are {keys}, expected {sorted(QUAL_ORACLE)}", sub="S8")
-    for c in ph_calls:
-        ph = c.args[0].value
-        if ph not in QUAL_ORACLE:
-            continue
-        sub = c.args[1]
-        tbl = sub.value if isinstance(sub, ast.Subscript) else None
-        cx.need(isinstance(tbl, ast.Dict) and norm(sub.slice) == "specialize_for", f"substitution of {ph} is not a dict indexed by specialize_for")
-        got = {}
-        for k, v in zip(tbl.keys, tbl.values):
-            if isinstance(v, ast.Constant):
-                got[k.value] = v.value
-            elif isinstance(v, ast.Name) and v.id == "restrict_qualifier":
-                got[k.value] = " restrict "
-            else:
-                raise AnalysisError(f"[S1] substitution value `{norm(v)}` for {ph} not understood")
-        cx.check(sorted(got) == sorted(TARGETS), c, construct=f"{ph}: targets {sorted(got)}", detail="every target has a replacement", bad_detail="replacement table does not cover exactly the four targets", sub="S8")
-        for tgt, val in got.items():
+    # S8: what each placeholder is replaced by on each target, read off the EVALUATED output of a marker line (shape
+    # independent: tables, dicts, if-chains ... all the same): only qualifier tokens of the target may appear, and the
+    # ones the target needs must appear
+    PH = ["/*gpukern*/", "/*gpufun*/", "/*gpuglmem*/", "/*restrict*/"]
+    marker = "@0@" + "".join(f"{ph}@{k + 1}@" for k, ph in enumerate(PH))
+    for tgt in TARGETS:
+        out, exc = _specialise(m, "int before;\n" + marker + "\nint after;", tgt)
+        cx.need(exc is None and out is not None, f"specialize_source cannot be evaluated on the marker line for {tgt}")
+        line = [l for l in out.split("\n") if "@0@" in l]
+        cx.need(len(line) == 1, f"[{tgt}] marker line not found in the output")
+        mm = re.fullmatch(r".*@0@(.*)@1@(.*)@2@(.*)@3@(.*)@4@.*", line[0], re.S)
+        cx.need(mm is not None, f"[{tgt}] marker line was altered beyond the placeholders: {line[0]!r}")
+        for ph, val in zip(PH, mm.groups()):
             toks = set(val.split())
             allowed = QUAL_ORACLE[ph].get(tgt, set())
             req = QUAL_REQUIRED.get((ph, tgt), set())
-            cx.check(toks <= allowed and req <= toks, c, construct=f"{ph} -> {val!r} on {tgt}", detail="replacement consists of target qualifier tokens only (cannot alter arithmetic)",
+            cx.check(toks <= allowed and req <= toks, f, construct=f"{ph} -> {val!r} on {tgt}", detail="replacement consists of target qualifier tokens only (cannot alter arithmetic)",
                      bad_detail=(f"replacement {val!r} lacks {sorted(req - toks)}" if not req <= toks else f"replacement {val!r} contains non-qualifier tokens {sorted(toks - allowed)}"), sub="S8")
     # ---- S5 nested blocks are rejected
     nested = SAMPLE.replace("    yout[ii] = twice(xin, ii) + aa;", "    //vectorize_over zz nn\n    yout[ii] = 0;")
